@@ -5276,31 +5276,45 @@ let is_nz_const w = function
 let nonzero_in w st p =
   (||) (is_nz_const w p) (existsb (tv_same w p) st.s_nz)
 
+(** val is_bot : sst1 -> bool **)
+
+let is_bot st =
+  existsb (fun p -> match p with
+                    | [] -> true
+                    | _ :: _ -> false) st.s_nz
+
 (** val entails : z -> sst1 -> facts -> bool **)
 
 let entails w st f =
-  (&&)
+  (||) (is_bot st)
     ((&&)
       ((&&)
-        (forallb (fun k ->
-          negb (match look k f.f_c with
-                | Some _ -> true
-                | None -> false)) f.f_d)
-        (forallb (fun k ->
-          (||) (memz k f.f_d)
-            ((&&) (agree w st k)
-              (match look k f.f_c with
-               | Some q ->
-                 (&&) (subst_ok w st q)
-                   (tv_same w (cell_b st k) (subst_st w st q))
-               | None -> true))) (app (keys st) (map fst f.f_c))))
-      (forallb (fun tq ->
-        match look (fst tq) st.s_t with
-        | Some p ->
-          (&&) (subst_ok w st (snd tq)) (tv_same w p (subst_st w st (snd tq)))
-        | None -> false) f.f_t))
-    (forallb (fun q ->
-      (&&) (subst_ok w st q) (nonzero_in w st (subst_st w st q))) f.f_nz)
+        ((&&)
+          (forallb (fun k ->
+            negb (match look k f.f_c with
+                  | Some _ -> true
+                  | None -> false)) f.f_d)
+          (forallb (fun k ->
+            (||) (memz k f.f_d)
+              ((&&) (agree w st k)
+                (match look k f.f_c with
+                 | Some q ->
+                   (&&) (subst_ok w st q)
+                     (tv_same w (cell_b st k) (subst_st w st q))
+                 | None -> true))) (app (keys st) (map fst f.f_c))))
+        (forallb (fun tq ->
+          match look (fst tq) st.s_t with
+          | Some p ->
+            (&&) (subst_ok w st (snd tq))
+              (tv_same w p (subst_st w st (snd tq)))
+          | None -> false) f.f_t))
+      (forallb (fun q ->
+        (&&) (subst_ok w st q) (nonzero_in w st (subst_st w st q))) f.f_nz))
+
+(** val once_exit : z -> sst1 -> z -> sst1 **)
+
+let once_exit w stb cond =
+  if nonzero_in w stb (cell_i stb cond) then add_nz stb [] else stb
 
 (** val is_const : expr -> bool **)
 
@@ -5464,7 +5478,9 @@ let rec tv_block fuel w fuse code insts pc stop st cs =
                                            (entails w stb' inv)
                                       then tv_block fuel' w fuse code rest'
                                              (Z.add back (Zpos XH)) stop
-                                             (if once then stb' else fi) cs2
+                                             (if once
+                                              then once_exit w stb' cond
+                                              else fi) cs2
                                       else None
                                     | None -> None)
                                  | None -> None)
@@ -5513,10 +5529,11 @@ let rec tv_block fuel w fuse code insts pc stop st cs =
            | _ -> None))
      | None -> None)
 
-(** val st0 : sst1 **)
+(** val st0 : z list -> sst1 **)
 
-let st0 =
-  { s_ci = []; s_cb = []; s_d = []; s_t = []; s_nz = []; s_n = Z0 }
+let st0 zs =
+  { s_ci = (map (fun k -> (k, [])) zs); s_cb = (map (fun k -> (k, [])) zs);
+    s_d = []; s_t = []; s_nz = []; s_n = Z0 }
 
 (** val tvsize : instr -> nat **)
 
@@ -5530,12 +5547,13 @@ let rec tvsize = function
 let isize l =
   S (list_sum (map tvsize l))
 
-(** val tv_check : z -> bool -> block -> binstr list -> cert list -> bool **)
+(** val tv_check :
+    z -> bool -> block -> binstr list -> z list -> cert list -> bool **)
 
-let tv_check w fuse ir code cs =
+let tv_check w fuse ir code zs cs =
   (&&) (Z.leb Z0 w)
     (match tv_block (S (isize (snd ir))) w fuse code (snd ir) Z0
-             (Z.of_nat (length code)) st0 cs with
+             (Z.of_nat (length code)) (st0 zs) cs with
      | Some p ->
        let (p0, l) = p in
        let (pc, _) = p0 in
